@@ -1,0 +1,30 @@
+//! Verification hooks (only compiled with the cargo feature `verif`).
+//!
+//! [`event`] appends one JSON line per call to the file named by the
+//! environment variable `CWE_CHECKER_VERIF_EVENTS`.
+//! If the variable is not set the function does nothing.
+
+use std::io::Write;
+use std::sync::Mutex;
+
+static LOCK: Mutex<()> = Mutex::new(());
+
+/// Append the event `{"kind": kind, "payload": payload}` as one line to the event file.
+pub fn event(kind: &str, payload: &str) {
+    let path = match std::env::var_os("CWE_CHECKER_VERIF_EVENTS") {
+        Some(path) => path,
+        None => return,
+    };
+    let line = format!(
+        "{}\n",
+        serde_json::json!({ "kind": kind, "payload": payload, "pid": std::process::id() })
+    );
+    let _guard = LOCK.lock().unwrap_or_else(|err| err.into_inner());
+    if let Ok(mut file) = std::fs::OpenOptions::new()
+        .create(true)
+        .append(true)
+        .open(path)
+    {
+        let _ = file.write_all(line.as_bytes());
+    }
+}
